@@ -196,6 +196,10 @@ func (c *AbstractTokenizer) ReadNextToken() *Token {
 	var token *Token = nil
 
 	for true {
+		// Position of the token that starts here (tokens may have been skipped)
+		line = c.Scanner.PeekLine()
+		column = c.Scanner.PeekColumn()
+
 		// Read character
 		nextChar := c.Scanner.Peek()
 
